@@ -151,10 +151,25 @@ def check_index_spaces(chk, tus, it, tabs):
         fns_t = c06.split_functions(c06.inits_text(it2, c06.shape(it2, mem='none', table=table, nglobals=0, gimports=0, data=(), elems=1, start=False)))
         n_stores = len(re.findall(r'data\[offset\s*\+\s*\d+\]\s*=\s*\(wasmFunc\)', fns_t.get('modInitTables', '')))
         called = re.search(r'\bmodInitTables\s*\(', fns_t.get('modInstantiate', '')) is not None
+        tgt = re.findall(r'(\S+)\.data\[offset\s*\+\s*(\d+)\]\s*=\s*\(wasmFunc\)\s*&?(\w+)', fns_t.get('modInitTables', ''))
+        want_t = '(*i->env__table)' if table == 'imported' else 'i->t0'
+        chk.expect([(a, int(b), c_) for a, b, c_ in tgt] == [(want_t, 0, 'f1'), (want_t, 1, 'env__imp0'), (want_t, 2, 'f3')], 'R04.4',
+                   'element-target:' + table,
+                   'element segment [1,0,3] of table 0 (%s) is stored as %r; expected entries offset+0..2 of %s holding f1, env__imp0, f3'
+                   % (table, tgt, want_t), 'wasmCWriteInitTables:element-target')
         chk.expect(n_stores == 3 and called, 'R04.4', 'element-stores-run:' + table,
                    'module with a %s table and one element segment of 3 functions: InitTables contains %d stores and Instantiate %s it - '
                    'call_indirect through an initialised entry would reach whatever the table held before'
                    % (table, n_stores, 'calls' if called else 'does NOT call'), 'wasmCWriteInstantiateFunction:init-tables')
+    # one imported and one defined table, a segment for each: table indices count imports first
+    mk2 = lambda: M.build(it2, types=[([], [])], func_imports=[('env', 'imp0', 0)], functions=[0, 0], tables=[(4, 8, False)],
+                          table_imports=[('env', 'table', 4, 8, False)],
+                          element_segments=[(0, M.i32_const(1), [1]), (1, M.i32_const(2), [2, 0])])
+    body2 = c06.split_functions(c06.inits_text(it2, mk2)).get('modInitTables', '')
+    tgt2 = [(a, c_) for a, b, c_ in re.findall(r'(\S+)\.data\[offset\s*\+\s*(\d+)\]\s*=\s*\(wasmFunc\)\s*&?(\w+)', body2)]
+    chk.expect(tgt2 == [('(*i->env__table)', 'f1'), ('i->t1', 'f2'), ('i->t1', 'env__imp0')], 'R04.4', 'element-target:mixed',
+               'with an imported table 0 and a defined table 1, segments (table 0: [f1]) and (table 1: [f2, imp0]) are stored as %r' % (tgt2,),
+               'wasmCWriteInitTables:element-target')
     # the import spelling must be the symbol the WASI host library actually defines
     from .. import wasi as W
     wtu = W.wasi_tu()
